@@ -38,7 +38,7 @@ func c01(c *Ctx) {
 		if class == "tall" {
 			// a term whose cardinality sits next to a chunk-rule threshold
 			k := model.EdgeCards[(i/tallEvery)%len(model.EdgeCards)]
-			f := b.Docs[0].Fields[0].Name
+			f := firstFieldName(b)
 			model.ForceCardinality(b, rng, f, "edge", k)
 			extra = fmt.Sprintf("term edge in %d docs of field %s", k, f)
 		}
